@@ -383,9 +383,68 @@ def rule_R6(text):
     return text[:toks[e0].start] + new + text[toks[map_close + 4].end:]
 
 
-RULES = {"R1": rule_R1, "R2": rule_R2, "R3": rule_R3, "R4": rule_R4, "R5": rule_R5, "R6": rule_R6}
+def _let_type(text, pos):
+    """type annotation of the `let x: T =` binding that ends right before text[pos:], or None"""
+    m = re.search(r"let\s+(?:mut\s+)?\w+\s*:\s*([^=;]+?)\s*=\s*$", text[:pos])
+    return m.group(1) if m else None
+
+
+def rule_R7(text):
+    """E.iter().filter(|v| P).collect()
+       -> ({ let mut __v = Vec::new(); for __r in E.iter() { let v = &__r; if P { __v.push(__r); } } __v })"""
+    toks = tokenize(text)
+    hits = [i for i in range(len(toks))
+            if _seq(toks, i, [".", "iter", "(", ")", ".", "filter", "(", "|"])
+            and toks[i + 8].kind == "id" and toks[i + 9].text == "|"]
+    if len(hits) != 1:
+        raise Unsupported("R7 matches %d times" % len(hits))
+    i = hits[0]
+    v = toks[i + 8].text
+    f_open = i + 6
+    f_close = match_close(toks, f_open)
+    if not _seq(toks, f_close + 1, [".", "collect", "(", ")"]):
+        raise Unsupported("R7: filter not followed by collect()")
+    e0 = _expr_start(toks, i, 0)
+    E = text[toks[e0].start:toks[i].start].strip()
+    P = text[toks[i + 9].end:toks[f_close].start].strip()
+    ty = _let_type(text, toks[e0].start)
+    decl = "let mut __v: %s = Vec::new();" % ty if ty else "let mut __v = Vec::new();"
+    new = "({ %s for __r in %s.iter() { let %s = &__r; if %s { __v.push(__r); } } __v })" % (decl, E, v, P)
+    return text[:toks[e0].start] + new + text[toks[f_close + 4].end:]
+
+
+def rule_R8(text):
+    """E.iter().map(|v| M).collect()   (closure parameter without a pattern)
+       -> ({ let mut __v = Vec::new(); for __r in E.iter() { let v = __r; __v.push(M); } __v })"""
+    toks = tokenize(text)
+    hits = [i for i in range(len(toks))
+            if _seq(toks, i, [".", "iter", "(", ")", ".", "map", "(", "|"])
+            and toks[i + 8].kind == "id" and toks[i + 9].text == "|"]
+    if len(hits) != 1:
+        raise Unsupported("R8 matches %d times" % len(hits))
+    i = hits[0]
+    v = toks[i + 8].text
+    m_open = i + 6
+    m_close = match_close(toks, m_open)
+    if not _seq(toks, m_close + 1, [".", "collect", "(", ")"]):
+        raise Unsupported("R8: map not followed by collect()")
+    e0 = _expr_start(toks, i, 0)
+    E = text[toks[e0].start:toks[i].start].strip()
+    M = text[toks[i + 9].end:toks[m_close].start].strip()
+    ty = _let_type(text, toks[e0].start)
+    decl = "let mut __v: %s = Vec::new();" % ty if ty else "let mut __v = Vec::new();"
+    new = "({ %s for __r in %s.iter() { let %s = __r; __v.push(%s); } __v })" % (decl, E, v, M)
+    return text[:toks[e0].start] + new + text[toks[m_close + 4].end:]
+
+
+RULES = {"R1": rule_R1, "R2": rule_R2, "R3": rule_R3, "R4": rule_R4, "R5": rule_R5, "R6": rule_R6,
+         "R7": rule_R7, "R8": rule_R8}
 
 RULE_TEXT = {
+    "R7": "E.iter().filter(|v| P).collect()  =>  ({ let mut __v = Vec::new(); for __r in E.iter() { let v = &__r; "
+          "if P { __v.push(__r); } } __v })  (__v takes the type annotation of the enclosing `let x: T =`, if any)",
+    "R8": "E.iter().map(|v| M).collect()  =>  ({ let mut __v = Vec::new(); for __r in E.iter() { let v = __r; "
+          "__v.push(M); } __v })  (__v takes the type annotation of the enclosing `let x: T =`, if any)",
     "R6": "E.iter().map(|&v| M).collect()  =>  ({ let mut __v = Vec::new(); for __r in E.iter() { let v = *__r; "
           "__v.push(M); } __v })",
     "R5": "X.to_le_bytes()  =>  __to_le_bytes(X)  (call redirected to a wrapper with the assumed little-endian contract; "
